@@ -395,6 +395,9 @@ impl ClusterStorage {
 
         tokio::spawn(async move {
             while let Some((log, result_notifier)) = receiver.recv().await {
+                #[cfg(agdb_verif)]
+                verif_delay(log.index).await;
+
                 let log_id = log.db_id.unwrap_or_default();
                 let result = log.data.exec(db.clone(), db_pool.clone()).await;
                 let _ = notifier.send(log.index);
@@ -473,6 +476,83 @@ impl Storage<ClusterAction, ResultNotifier> for ClusterStorage {
     async fn logs(&self, from_index: u64) -> ServerResult<Vec<Log<ClusterAction>>> {
         self.cluster_log.logs_since(from_index).await
     }
+}
+
+// Verification hook (H3): delay point at the start of the execution of a committed log.
+// `AGDB_VERIF_DELAYS` = comma separated milliseconds, entry i-1 for log index i.
+#[cfg(agdb_verif)]
+pub(crate) async fn verif_delay(index: u64) {
+    if let Ok(delays) = std::env::var("AGDB_VERIF_DELAYS")
+        && let Some(ms) = delays
+            .split(',')
+            .nth((index as usize).saturating_sub(1))
+            .and_then(|ms| ms.trim().parse::<u64>().ok())
+    {
+        tokio::time::sleep(Duration::from_millis(ms)).await;
+    }
+}
+
+// Verification hook (H3): `agdb_server --verif-exec <n> <data_dir>` builds a `ClusterStorage`
+// on a scratch data dir, appends `n` user-add actions, commits them with ONE `commit(n)` and
+// prints the order in which the node executed them plus the resulting user list.
+#[cfg(agdb_verif)]
+pub(crate) async fn verif_exec() -> ServerResult<()> {
+    let args: Vec<String> = std::env::args().collect();
+    let n: u64 = args.get(2).and_then(|v| v.parse().ok()).unwrap_or(4);
+    let data_dir = args.get(3).cloned().unwrap_or("agdb_verif_exec".to_string());
+    let mut config_impl = crate::config::from_str("")?;
+    config_impl.data_dir = data_dir;
+    let config = Config::new(config_impl);
+    crate::password::init(None);
+    let (shutdown_sender, _shutdown_receiver) = broadcast::channel::<()>(1);
+    let db = crate::server_db::new(&config, shutdown_sender.subscribe()).await?;
+    let cluster_log = crate::cluster_log::new(&config).await?;
+    let db_pool = crate::db_pool::new(config.clone(), &db).await?;
+    let mut storage = ClusterStorage::new(db.clone(), cluster_log.clone(), db_pool).await?;
+    let mut executed = storage.subscribe().await;
+
+    for index in 1..=n {
+        storage
+            .append(
+                Log {
+                    db_id: None,
+                    index,
+                    term: 1,
+                    data: ClusterAction::UserAdd(crate::action::user_add::UserAdd {
+                        user: format!("verif_user{index}"),
+                        password: vec![],
+                        salt: vec![],
+                    }),
+                },
+                None,
+            )
+            .await?;
+    }
+
+    storage.commit(n).await?;
+
+    let mut order = Vec::new();
+    while (order.len() as u64) < n {
+        match tokio::time::timeout(Duration::from_secs(30), executed.recv()).await {
+            Ok(Ok(index)) => order.push(index.to_string()),
+            _ => break,
+        }
+    }
+
+    // let the last `log_executed` land, then report what is left unexecuted
+    tokio::time::sleep(Duration::from_millis(100)).await;
+    let unexecuted = cluster_log.logs_unexecuted(n).await?.len();
+    let users: Vec<String> = db
+        .user_statuses()
+        .await?
+        .into_iter()
+        .map(|u| u.username)
+        .collect();
+    println!("order={}", order.join(","));
+    println!("unexecuted={unexecuted}");
+    println!("users={}", users.join(","));
+    let _ = shutdown_sender.send(());
+    Ok(())
 }
 
 #[cfg(feature = "tls")]
